@@ -121,6 +121,59 @@ theorem no_panic : NoPanicStatement genCfg := by
   intro F wPix hPix w h cellW cellH hcw hch
   exact ⟨_, resizeDimsWith_std F wPix hPix w h cellW cellH hcw hch⟩
 
+/-! ## Cell sizes reported by the four image kinds -/
+
+/-- **Kitty / sixel `CellSize()` after `Resize(w, h)`** never exceeds the box. -/
+theorem cell_size_fits_proto (F : FloatOps) (hF : Sound F) (wPix hPix w h cellW cellH cw ch : Nat)
+    (hw : 0 < wPix) (hh : 0 < hPix) (hcw : 0 < cellW) (hch : 0 < cellH)
+    (hr : protoCellSize F wPix hPix w h cellW cellH = .ok (cw, ch)) : cw ≤ w ∧ ch ≤ h := by
+  obtain ⟨⟨pw, ph⟩, hd⟩ := no_panic F wPix hPix w h cellW cellH hcw hch
+  have hfit := fit F hF wPix hPix w h cellW cellH pw ph hw hh hcw hch hd
+  unfold protoCellSize at hr
+  rw [show resizeDims F wPix hPix w h cellW cellH = .ok (pw, ph) from hd] at hr
+  simp only [cellsUp, cells_true _ _ hcw, cells_true _ _ hch, bind, Except.bind, pure, Except.pure] at hr
+  have hr' := Prod.mk.inj (Except.ok.inj hr)
+  rw [← hr'.1, ← hr'.2, upDiv_eq_ceilDiv _ _ hcw, upDiv_eq_ceilDiv _ _ hch]
+  exact hfit
+
+/-- The block renderers pass the cell geometry 1×2 (regenerated fact). -/
+theorem block_geometry : halfBlockGeom = (1, 2) ∧ fullBlockGeom = (1, 2) := by decide
+
+/-- **Half-block `CellSize()` after `Resize(w, h)`** never exceeds the box. -/
+theorem cell_size_fits_half (F : FloatOps) (hF : Sound F) (wPix hPix w h cw ch : Nat)
+    (hw : 0 < wPix) (hh : 0 < hPix)
+    (hr : halfCellSize F wPix hPix w h = .ok (cw, ch)) : cw ≤ w ∧ ch ≤ h := by
+  unfold halfCellSize at hr
+  rw [block_geometry.1] at hr
+  obtain ⟨⟨pw, ph⟩, hd⟩ := no_panic F wPix hPix w h 1 2 (by decide) (by decide)
+  have hfit := fit F hF wPix hPix w h 1 2 pw ph hw hh (by decide) (by decide) hd
+  rw [show resizeDims F wPix hPix w h 1 2 = .ok (pw, ph) from hd] at hr
+  simp only [bind, Except.bind, pure, Except.pure] at hr
+  have hr' := Prod.mk.inj (Except.ok.inj hr)
+  rw [← hr'.1, ← hr'.2, blockHeight_eq]
+  have : ceilDiv pw 1 = pw := by simp [ceilDiv]
+  rw [← this]
+  exact hfit
+
+/-- **Full-block `CellSize()` after `Resize(w, h)`** never exceeds the box. -/
+theorem cell_size_fits_full (F : FloatOps) (hF : Sound F) (wPix hPix w h cw ch : Nat)
+    (hw : 0 < wPix) (hh : 0 < hPix)
+    (hr : fullCellSize F wPix hPix w h = .ok (cw, ch)) : cw ≤ w ∧ ch ≤ h := by
+  unfold fullCellSize at hr
+  rw [block_geometry.2] at hr
+  obtain ⟨⟨pw, ph⟩, hd⟩ := no_panic F wPix hPix w h 1 2 (by decide) (by decide)
+  have hfit := fit F hF wPix hPix w h 1 2 pw ph hw hh (by decide) (by decide) hd
+  rw [show resizeDims F wPix hPix w h 1 2 = .ok (pw, ph) from hd] at hr
+  simp only [bind, Except.bind, pure, Except.pure] at hr
+  have hr' := Prod.mk.inj (Except.ok.inj hr)
+  rw [← hr'.1, ← hr'.2, blockHeight_eq]
+  have : ceilDiv pw 1 = pw := by simp [ceilDiv]
+  rw [← this]
+  exact hfit
+
+example : protoCellSize exactOps 64 128 4 4 8 16 = .ok (4, 4) := by rfl
+example : halfCellSize exactOps 10 7 3 3 = .ok (3, 1) := by rfl
+
 /-! ## Pixels of block-rendered images -/
 
 section pixels
